@@ -193,6 +193,13 @@ class Script:
             return self.call(lambda: getattr(w, op['method'])(*args, **kwargs), op.get('timeout', 15))
         if o == 'get':
             w = self.obj(op['var'])
+            if op.get('digest'):
+                def dig():
+                    v = getattr(w, op['attr'])
+                    if isinstance(v, (list, tuple)) and len(v) == 2 and isinstance(v[1], str):
+                        return {'len': 2, 'head': v[0], 'size': len(v[1])}
+                    return {'other': repr(v)[:80]}
+                return self.call(dig, op.get('timeout', 10))
             return self.call(lambda: getattr(w, op['attr']), op.get('timeout', 10))
         if o == 'set':
             w = self.obj(op['var'])
